@@ -734,7 +734,15 @@ class EventBus:
                     self._on_idle.clear()  # Start in a busy state unless we confirm queue is empty by running step() at least once
 
                 # Create and start the run loop task
-                self._runloop_task = loop.create_task(self._run_loop(), name=f'{self}._run_loop')
+                # The bus may be started from inside a handler of another bus (first dispatch() happens there).
+                # The run loop must not inherit that handler's context: it does not hold the global lock
+                # and it is not inside any handler / event.
+                runloop_context = contextvars.copy_context()
+                runloop_context.run(_current_event_context.set, None)
+                runloop_context.run(inside_handler_context.set, False)
+                runloop_context.run(holds_global_lock.set, False)
+                runloop_context.run(_current_handler_id_context.set, None)
+                self._runloop_task = loop.create_task(self._run_loop(), name=f'{self}._run_loop', context=runloop_context)
                 self._is_running = True
             except RuntimeError:
                 # No event loop - will start when one becomes available
